@@ -449,6 +449,16 @@ def _delattr(it, o, n):
 def _next(it, i, *d):
     if isinstance(i, SummaryFn) or isinstance(i, (Obj, SymObj)):
         return it.call(it.getattr(i, "__next__"), [], {})
+    if isinstance(i, list):
+        # generator expressions are evaluated eagerly (to a list): next() of one takes its first element.  Sound for a generator that
+        # is consumed by this single call (the engine has no generator objects); a real list argument raises TypeError like CPython
+        if getattr(it, "_last_genexp", None) is not i:
+            raise PyRaise(TypeError("'list' object is not an iterator"))
+        if i:
+            return i[0]
+        if d:
+            return d[0]
+        raise PyRaise(StopIteration())
     try:
         return next(i)
     except StopIteration:
